@@ -100,6 +100,29 @@ def _any(items):
     return mkbool(z3.Or(*ts)) if ts else False
 
 
+def _is_nan(v):
+    return v is None or (isinstance(v, (float, np.floating)) and v != v)
+
+
+def _is_inf(v):
+    return isinstance(v, (float, np.floating)) and v in (float("inf"), float("-inf"))
+
+
+# an exact real is never NaN / infinite; concrete floats that sit in an object array (NaN padding, "unknown" markers) are classified
+# like numpy does
+_CLASSIFY = {np.isnan: _is_nan, np.isinf: _is_inf, np.isfinite: lambda v: not _is_nan(v) and not _is_inf(v)}
+
+
+def _classify(pred, a):
+    base = np.asarray(a).view(np.ndarray) if isinstance(a, np.ndarray) else a
+    if not isinstance(base, np.ndarray):
+        return bool(pred(base))
+    out = np.empty(base.shape, dtype=bool)
+    for idx in np.ndindex(*base.shape):
+        out[idx] = bool(pred(base[idx]))
+    return out
+
+
 class SymArray(np.ndarray):
     """Object ndarray whose reductions / comparisons stay symbolic (state merging)."""
 
@@ -131,6 +154,8 @@ class SymArray(np.ndarray):
                 return _wrap(_F_MAX2(*ins))
             if ufunc is np.minimum:
                 return _wrap(_F_MIN2(*ins))
+            if ufunc in _CLASSIFY:
+                return _classify(_CLASSIFY[ufunc], ins[0])
         if method == "reduce":
             axis = kw.get("axis", 0)
             initial = kw.get("initial", None)
@@ -358,10 +383,170 @@ def _np_where(cond, *xy):
                    _base(np.asarray(y)) if isinstance(y, np.ndarray) else y))
 
 
-@handles(np.isnan)
 def _np_isnan(a, **kw):
-    f = np.frompyfunc(lambda v: (v is None) or (isinstance(v, float) and v != v), 1, 1)
-    return np.asarray(f(np.asarray(a).view(np.ndarray)), dtype=bool)
+    return _classify(_is_nan, a)
+
+
+def _np_isinf(a, **kw):
+    return _classify(_is_inf, a)
+
+
+def _np_isfinite(a, **kw):
+    return _classify(_CLASSIFY[np.isfinite], a)
+
+
+def _mask_items(where, shape):
+    """Broadcast a (possibly symbolic) mask to `shape`; returns an object ndarray of bool / SymBool."""
+    m = np.asarray(where)
+    m = m.view(np.ndarray) if isinstance(m, np.ndarray) else m
+    return np.broadcast_to(m, shape)
+
+
+@handles(np.copyto)
+def _np_copyto(dst, src, casting="same_kind", where=True):
+    d = dst.view(np.ndarray) if isinstance(dst, np.ndarray) else dst
+    srcb = np.asarray(src)
+    srcb = srcb.view(np.ndarray) if isinstance(srcb, np.ndarray) else srcb
+    if where is True or (isinstance(where, np.ndarray) and where.dtype == bool) or isinstance(where, (bool, np.bool_)):
+        if d.dtype != object and isinstance(srcb, np.ndarray) and srcb.dtype == object:
+            raise HarnessError("copyto of symbolic values into a numeric array (C boundary)")
+        np.copyto(d, srcb, casting="unsafe" if d.dtype == object else casting, where=where)
+        return None
+    mask = _mask_items(where, d.shape)
+    sb = np.broadcast_to(srcb, d.shape)
+    if d.dtype != object:
+        raise HarnessError("copyto under a symbolic mask into a numeric array")
+    for idx in np.ndindex(*d.shape):
+        c = mask[idx]
+        if _is_concrete_bool(c):
+            if c:
+                d[idx] = sb[idx]
+        else:
+            d[idx] = sym_ite(c, sb[idx], d[idx])
+    return None
+
+
+@handles(np.putmask)
+def _np_putmask(a, mask, values):
+    vals = np.asarray(values).view(np.ndarray).reshape(-1)
+    base = a.view(np.ndarray)
+    m = _mask_items(mask, base.shape)
+    flat_idx = 0
+    for idx in np.ndindex(*base.shape):
+        v = vals[flat_idx % len(vals)]
+        flat_idx += 1
+        c = m[idx]
+        if _is_concrete_bool(c):
+            if c:
+                base[idx] = v
+        else:
+            base[idx] = sym_ite(c, v, base[idx])
+    return None
+
+
+@handles(np.array_equal)
+def _np_array_equal(a1, a2, equal_nan=False):
+    a, b = np.asarray(a1), np.asarray(a2)
+    a, b = a.view(np.ndarray), b.view(np.ndarray)
+    if a.shape != b.shape:
+        return False
+    parts = []
+    for x, y in zip(a.flat, b.flat):
+        if _is_nan(x) or _is_nan(y):
+            if not (equal_nan and _is_nan(x) and _is_nan(y)):
+                return False
+            continue
+        e = (x == y)
+        if _is_concrete_bool(e):
+            if not e:
+                return False
+        else:
+            parts.append(e)
+    return _all(parts) if parts else True
+
+
+@handles(np.nan_to_num)
+def _np_nan_to_num(x, copy=True, nan=0.0, posinf=None, neginf=None):
+    base = np.asarray(x).view(np.ndarray)
+    out = np.array(base, dtype=object, copy=True)
+    for idx in np.ndindex(*out.shape):
+        v = out[idx]
+        if _is_nan(v):
+            out[idx] = SymReal(nan)
+        elif _is_inf(v):
+            raise HarnessError("nan_to_num of an infinite entry")
+    return out.view(SymArray)
+
+
+@handles(np.clip)
+def _np_clip(a, a_min=None, a_max=None, out=None, **kw):
+    base = np.asarray(a).view(np.ndarray)
+    res = np.empty(base.shape, dtype=object)
+    lo = np.broadcast_to(np.asarray(a_min, dtype=object), base.shape) if a_min is not None else None
+    hi = np.broadcast_to(np.asarray(a_max, dtype=object), base.shape) if a_max is not None else None
+    for idx in np.ndindex(*base.shape):
+        v = base[idx]
+        if lo is not None:
+            v = smax([v, lo[idx]])
+        if hi is not None:
+            v = smin([v, hi[idx]])
+        res[idx] = v
+    if out is not None:
+        np.copyto(out.view(np.ndarray), res, casting="unsafe")
+        return out
+    return res.view(SymArray)
+
+
+def _nan_filtered(a, axis, fold, what):
+    base = np.asarray(a).view(np.ndarray)
+    if axis is not None:
+        raise HarnessError(f"{what} with axis on symbolic arrays not modelled")
+    items = [v for v in base.flat if not _is_nan(v)]
+    if not items:
+        return float("nan")
+    return fold(items)
+
+
+@handles(np.nanmax)
+def _np_nanmax(a, axis=None, **kw):
+    return _nan_filtered(a, axis, smax, "nanmax")
+
+
+@handles(np.nanmin)
+def _np_nanmin(a, axis=None, **kw):
+    return _nan_filtered(a, axis, smin, "nanmin")
+
+
+@handles(np.nansum)
+def _np_nansum(a, axis=None, **kw):
+    return _nan_filtered(a, axis, lambda it: ssum(it), "nansum")
+
+
+@handles(np.nanmean)
+def _np_nanmean(a, axis=None, **kw):
+    base = np.asarray(a).view(np.ndarray)
+    n = builtins.sum(1 for v in base.flat if not _is_nan(v))
+    return _nan_filtered(a, axis, lambda it: ssum(it), "nanmean") / n if n else float("nan")
+
+
+# Functions that must also work on PLAIN object arrays (no subclass -> no dispatch protocol): the per-module numpy proxy serves these
+# names directly; on purely numeric arguments they defer to numpy.
+def _obj(x):
+    return isinstance(x, SymArray) or (isinstance(x, np.ndarray) and x.dtype == object) or is_symbolic(x) or isinstance(x, SymReal)
+
+
+def _override(name, handler):
+    real = getattr(np, name)
+
+    def f(*a, **k):
+        if builtins.any(_obj(x) for x in a) or builtins.any(_obj(x) for x in k.values()):
+            return handler(*a, **k)
+        return real(*a, **k)
+    f.__name__ = name
+    return f
+
+
+_OVERRIDES = {}
 
 
 # ---------------------------------------------------------------- per-module numpy proxy
@@ -430,6 +615,8 @@ class NPProxy(types.ModuleType):
         self.__dict__["_cache"] = {}
 
     def __getattr__(self, name):
+        if name in _OVERRIDES:
+            return _OVERRIDES[name]
         v = getattr(np, name)
         if name in _CREATORS:
             c = self.__dict__["_cache"]
@@ -445,3 +632,10 @@ def install_proxy(*mods, keep_float64=True):
         if getattr(m, "np", None) is np:
             m.np = proxy
     return proxy
+
+
+for _n, _h in (("isnan", _np_isnan), ("isinf", _np_isinf), ("isfinite", _np_isfinite), ("copyto", _np_copyto), ("putmask", _np_putmask),
+               ("array_equal", _np_array_equal), ("nan_to_num", _np_nan_to_num), ("clip", _np_clip), ("nanmax", _np_nanmax),
+               ("nanmin", _np_nanmin), ("nansum", _np_nansum), ("nanmean", _np_nanmean), ("where", _np_where), ("isclose", _np_isclose),
+               ("allclose", _np_allclose)):
+    _OVERRIDES[_n] = _override(_n, _h)
